@@ -180,12 +180,28 @@ CHECKS = {
             "Scripted sockets/streams and hand-written wire codec in drive_c16; skip-vs-fail for non-matching datagrams and "
             "refusal at the in-flight cap are left open by the property and accepted either way; ID/port/case entropy not judged.",
             "DESIGN.md section 4 C16", "mux"),
+    "C20": ("model_checking",
+            "TLA+ reference reading of RFC 1035 section 5 (character-level lexer ZoneLex, denotation ZoneFile!Read) and a "
+            "master-file printer machine (ZonePrinter) whose every layout decision is a TLC choice; TLC-printed files with the "
+            "denoted record set replayed through Parser and zone loading; recorded texts judged by a TLA+ monitor",
+            "The lexical level is exhaustive in scope (every string of <= 4/5 characters over 15 classes, with liveness); the "
+            "printer/reader pair is model-checked for inheritance and RDATA layouts; TLC prints hundreds to thousands of files "
+            "(absolute/relative names, inherited owner/TTL/class, $ORIGIN/$TTL, comments, blank lines, parenthesised continuation, "
+            "quoted/unquoted strings, escapes) over 21 record types with the record set they denote; each is loaded with "
+            "Parser and, for a share, through FileZoneHandler::try_from_config, and compared; mutated/garbage/very long texts are "
+            "run under catch_unwind and a watchdog and judged (ok|err, and the denotation where the reading is decisive) by "
+            "Trace_ZoneFile.",
+            "RDATA value spellings come from a fixed table; \\DDD escapes, IDNA labels and $INCLUDE are 'unspec' (totality only); "
+            "whole files are sampled with seeded -simulate; layouts the reading leaves unspecified are not judged.",
+            "DESIGN.md section 4 C20", "zonefile"),
 }
 
 NOT_YET = {
 }
 
 ENGINES = [
+    {"name": "zonefile", "path": "spec/ZoneFile.tla", "serves_properties": ["C20"],
+     "kind_free_text": "TLA+ spec (ZoneLex, ZoneFile, ZonePrinter, MC_/Gen_ZoneLex, MC_/Gen_/Trace_ZoneFile) + harness/src/bin/drive_zone.rs"},
     {"name": "mux", "path": "spec/Mux.tla", "serves_properties": ["C16"],
      "kind_free_text": "TLA+ spec (UdpMatchOps, UdpMatch, Mux, MC_/Gen_/Trace_UdpMatch, Gen_UdpRetx, MC_/Gen_/Trace_Mux) + harness/src/bin/drive_c16/"},
     {"name": "wire", "path": "spec/WireName.tla", "serves_properties": ["C01", "C02"],
